@@ -4894,6 +4894,31 @@ def _add_surface_vel(is_pyramidal: bool):
   return kernel
 
 
+@wp.kernel
+def _nnz_overflow(
+  # Data in:
+  njmax_nnz_in: int,
+  # In:
+  efc_nnz_in: wp.array[int],
+  # Data out:
+  ne_out: wp.array[int],
+  nf_out: wp.array[int],
+  nl_out: wp.array[int],
+  nefc_out: wp.array[int],
+  efc_jtdaj_nblock_out: wp.array[int],
+  overflow_out: wp.array[int],
+):
+  worldid = wp.tid()
+
+  if efc_nnz_in[worldid] > njmax_nnz_in:
+    overflow_out[worldid] = overflow_out[worldid] | int(types.OverflowType.NJMAX_NNZ)
+    ne_out[worldid] = 0
+    nf_out[worldid] = 0
+    nl_out[worldid] = 0
+    nefc_out[worldid] = 0
+    efc_jtdaj_nblock_out[worldid] = 0
+
+
 @event_scope
 def make_constraint(m: types.Model, d: types.Data):
   """Creates constraint jacobians and other supporting data."""
@@ -5835,3 +5860,13 @@ def make_constraint(m: types.Model, d: types.Data):
             d.efc.frictionloss,
           ],
         )
+
+  if m.is_sparse:
+    # rows whose Jacobian non-zeros do not fit in njmax_nnz are left partially written by the row kernels
+    # (stale address and size): report the overflow and drop this world's rows rather than let the solver read them
+    wp.launch(
+      _nnz_overflow,
+      dim=d.nworld,
+      inputs=[d.njmax_nnz, efc_nnz],
+      outputs=[d.ne, d.nf, d.nl, d.nefc, d.efc.jtdaj_nblock, d.overflow],
+    )
